@@ -141,6 +141,7 @@ class Explorer:
         self.cexs = []            # CounterExamples found (sym mode)
         self.samples = []
         self.notes = {}
+        self.transcript = []      # (key, text) records emitted by harnesses (C20)
         # concrete mode state
         self.cvalues = {}
         self.cfuncs = {}
@@ -463,6 +464,10 @@ class Explorer:
                     out.append(z3.And(x >= 0, z3.Implies(x.arg(0) >= 0, x * x == x.arg(0))))
                 todo.extend(x.children())
         return out
+
+    def emit(self, key, text):
+        if self.mode == "sym":
+            self.transcript.append((key, text))
 
     def fail(self, what, detail=None):
         """An unconditional failure on this path (e.g. unexpected exception)."""
